@@ -95,6 +95,10 @@ def ops_for(dims, labels, tier, compose=False):
             ops.append(["rollaxis", dims[i] if (i + start) % 2 else i, start])
     if not compose and nd >= 1:
         ops.append(["rollaxis", -1, 0])
+        # negative start positions count from the end, as in numpy.rollaxis (start += ndim)
+        for i in range(nd):
+            for start in range(-nd, 0):
+                ops.append(["rollaxis", i if (i + start) % 2 else dims[i], start])
     nn = "n" if "n" not in dims else "n2"
     # (negative positions count from the end as in numpy.expand_dims: -1 is "after the last dimension", which the library documents, -2 the
     # position before it, ... -(nd+1) the front)
@@ -171,6 +175,8 @@ def apply_ref(ra, op):
         return permute(ra, order)
     if k == "rollaxis":
         i, start = _idx(ra, op[1]), op[2]
+        if start < 0:
+            start += nd
         order = [q for q in range(nd) if q != i]
         order.insert(start - 1 if start > i else start, i)
         return permute(ra, order)
@@ -223,7 +229,7 @@ def is_identity(ra, op):
         return _idx(ra, op[1]) == _idx(ra, op[2])
     if k == "rollaxis":
         i = _idx(ra, op[1])
-        return op[2] in (i, i + 1)
+        return (op[2] + len(ra.dims) if op[2] < 0 else op[2]) in (i, i + 1)
     if k == "squeeze":
         return op[1] is None and all(len(l) != 1 for l in ra.labels)
     return False
